@@ -28,6 +28,22 @@
     step; afterwards the table's column list is `colsEquiv` to the *old* side's and every other table is untouched
     (Proofs/SpecColsDown.lean).  With the C01 theorem: on columns, down undoes up on the reference engine.
 
+  * `indexes_with_dropped_columns` — **the index clause of the down migration when it drops columns**: the statements
+    `MigrationIndexDown` prints, called with the columns `MigrationColumnDown` drops, are `Abs.Idx.emitDownSup` of the
+    two reference index lists (the DROP of a new-only index all of whose columns go is suppressed); from what the DROP
+    COLUMN statements leave of the *new* index list they are well-formed at every step and give the *old* list up to
+    order (`Abs.Idx.emitDownSup_correct`, Abs/IdxDropDown.lean) — outside the recorded region
+    `index-redefined-old-columns-dropped` read downwards.
+
+  * `schema_on_reference_engine` — **the whole down migration, the executable predicate `Spec.c02` itself**: for scripts
+    without foreign keys, inline PRIMARY KEY and COMMENT options (MySQL reader model, default field order), tables on
+    both sides order-compatible with the same primary key and outside the recorded region, `modelDown` returns, and
+    its statements — DROP TABLE for what the up migration created, the column and index statements of the tables both
+    sides have, CREATE TABLE with indexes for what the up migration dropped —, executed by `Spec.execAll` on the *new*
+    schema (referential checks aside), are well-formed at every step, end in a schema `DB.equiv` to the *old* one, and
+    each acts on an element that differs (Proofs/SpecTableDown, SpecJustifiedDown, SpecSchemaDown).  With
+    `C01.schema_on_reference_engine`: on the reference engine, down undoes up.
+
   Missing for the full statement: as for C01 (a changed primary key, a COMMENT-only difference, drop suppression); covered by
   correspondence + the executable predicate `Spec.c02` on the implementation's printed down migration.
 -/
@@ -40,6 +56,7 @@ import SqlizeModel.Impl.Api
 import SqlizeModel.Spec.Scope
 import SqlizeModel.Props.C01
 import SqlizeModel.Proofs.SpecColsDown
+import SqlizeModel.Proofs.SpecSchemaDown
 
 namespace Sqlize.C02
 open Sqlize Sqlize.Spec
@@ -223,6 +240,83 @@ example : ∃ d dbO dbN, loadAndDiff {} C01.exOldCE C01.exNewCE = .ok d ∧ exec
     execAll true [] C01.exNewCE = some dbN ∧
     (d.tables.map (fun t => (execAll false dbN (Table.walkCols {} t.name false [] t.cols).1).map (fun db' => db'.equiv dbO))) =
       [some false, some true] :=
+  ⟨_, _, _, by rfl, by rfl, by rfl, by decide⟩
+
+/-- the index clause of the down migration in the presence of dropped columns -/
+theorem indexes_with_dropped_columns (g : Globals) (hg : g.dialect = .mysql) (hio : g.ignoreOrder = false) (rc : Bool)
+    (old new : List Stmt) (dbO dbN : DB) (ho : old.all Stmt.elemSafe = true) (hn : new.all Stmt.elemSafe = true)
+    (heo : execAll rc [] old = some dbO) (hen : execAll rc [] new = some dbN)
+    (d : Migration) (hd : loadAndDiff g old new = .ok d)
+    (t : String) (tbO tbN : TableSpec) (hfo : dbO.find t = some tbO) (hfn : dbN.find t = some tbN)
+    (hne : ∀ n ∈ tbN.colNames ++ tbO.colNames, n ≠ "") :
+    ∃ td ∈ d.tables, td.name = t ∧ td.action = .none ∧
+      ∃ cs dc ss, td.migrationColumnDown g = .ok (cs, dc) ∧ td.migrationIndexDown g dc = .ok ss ∧
+        (∀ c ∈ dc, c ∉ tbO.colNames) ∧
+        ss.filterMap idxStmt = Abs.Idx.emitDownSup dc tbN.idxs tbO.idxs ∧
+        ((∀ s ∈ tbN.idxs, ∀ o ∈ tbO.idxs, o.name = s.name → o ≠ s → ∃ c ∈ s.cols, c ∉ dc) →
+          ∃ R, Abs.Idx.execAll (Abs.Idx.prune dc tbN.idxs) (ss.filterMap idxStmt) = some R ∧ R.Perm tbO.idxs) := by
+  obtain ⟨td, h1, h2, h3, cs, dc, ss, h4, h5, h6, h7, h8, _⟩ :=
+    indexes_with_drops_end_to_end_down' g hg hio rc old new dbO dbN ho hn heo hen d hd t tbO tbN hfo hfn hne
+  exact ⟨td, h1, h2, h3, cs, dc, ss, h4, h5, h6, h7, h8⟩
+
+/-- the whole down migration on the reference engine: well-formed at every step, the result is the old schema, and every
+    statement acts on something that differs — the executable predicate `Spec.c02` (referential checks aside) holds -/
+theorem schema_on_reference_engine (g : Globals) (hg : g.dialect = .mysql) (hio : g.ignoreOrder = false) (rc : Bool)
+    (old new : List Stmt) (dbO dbN : DB) (ho : old.all Stmt.elemSafe = true) (hn : new.all Stmt.elemSafe = true)
+    (hpo : old.all Stmt.plainOpts = true) (hpn : new.all Stmt.plainOpts = true)
+    (heo : execAll rc [] old = some dbO) (hen : execAll rc [] new = some dbN)
+    (hdef : ∀ tb ∈ dbO ++ dbN, tb.name ≠ Migration.defaultMigrationTable)
+    (hnofk : ∀ tb ∈ dbO ++ dbN, tb.fks = [])
+    (hncm : ∀ tb ∈ dbO ++ dbN, ∀ c ∈ tb.cols, ∀ k ∈ c.opts, k.noComment = true)
+    (hboth : ∀ tbO ∈ dbO, ∀ tbN ∈ dbN, tbO.name = tbN.name →
+      Abs.OrderCompatible tbN.colNames tbO.colNames ∧ (∀ n ∈ tbN.colNames ++ tbO.colNames, n ≠ "") ∧ tbO.pk = tbN.pk ∧
+      (∀ dc : List String, (∀ c ∈ dc, c ∉ tbO.colNames) →
+        ∀ s ∈ tbN.idxs, ∀ o ∈ tbO.idxs, o.name = s.name → o ≠ s → ∃ c ∈ s.cols, c ∉ dc)) :
+    ∃ down, modelDown g old new = .ok down ∧ c02 g.ignoreOrder dbO dbN down false = .ok () := by
+  obtain ⟨d, out, hd, hU, ⟨db', he, heq⟩, hj⟩ := schema_spec_down g hg hio rc old new dbO dbN ho hn hpo hpn heo hen hdef hnofk hncm hboth
+  refine ⟨out.flatten, ?_, ?_⟩
+  · unfold modelDown
+    simp only [hd, hU, bind, Except.bind, pure, Except.pure]
+  · have hfind : out.flatten.find? (fun s => !justified dbN dbO s) = none := by
+      apply List.find?_eq_none.mpr
+      intro s hs
+      rw [hj s hs]; simp
+    unfold c02 migrates allJustified
+    rw [hio]
+    simp only [he, heq, if_true, hfind, bind, Except.bind, Bool.false_eq_true, if_false]
+
+/-- **down undoes up, on the reference engine**: under the hypotheses of both whole-schema theorems the printed up
+    migration takes the old schema to one equal to the new, and the printed down migration takes the new schema back
+    to one equal to the old -/
+theorem up_then_down_on_reference_engine (g : Globals) (hg : g.dialect = .mysql) (hio : g.ignoreOrder = false) (rc : Bool)
+    (old new : List Stmt) (dbO dbN : DB) (ho : old.all Stmt.elemSafe = true) (hn : new.all Stmt.elemSafe = true)
+    (hpo : old.all Stmt.plainOpts = true) (hpn : new.all Stmt.plainOpts = true)
+    (heo : execAll rc [] old = some dbO) (hen : execAll rc [] new = some dbN)
+    (hdef : ∀ tb ∈ dbO ++ dbN, tb.name ≠ Migration.defaultMigrationTable)
+    (hnofk : ∀ tb ∈ dbO ++ dbN, tb.fks = [])
+    (hncm : ∀ tb ∈ dbO ++ dbN, ∀ c ∈ tb.cols, ∀ k ∈ c.opts, k.noComment = true)
+    (hboth : ∀ tbO ∈ dbO, ∀ tbN ∈ dbN, tbO.name = tbN.name →
+      Abs.OrderCompatible tbN.colNames tbO.colNames ∧ (∀ n ∈ tbN.colNames ++ tbO.colNames, n ≠ "") ∧ tbO.pk = tbN.pk ∧
+      (∀ dc : List String, (∀ c ∈ dc, c ∉ tbN.colNames) →
+        ∀ s ∈ tbN.idxs, ∀ o ∈ tbO.idxs, o.name = s.name → o ≠ s → ∃ c ∈ o.cols, c ∉ dc) ∧
+      (∀ dc : List String, (∀ c ∈ dc, c ∉ tbO.colNames) →
+        ∀ s ∈ tbN.idxs, ∀ o ∈ tbO.idxs, o.name = s.name → o ≠ s → ∃ c ∈ s.cols, c ∉ dc)) :
+    ∃ up down, modelUp g old new = .ok up ∧ modelDown g old new = .ok down ∧
+      c01 g.ignoreOrder dbO dbN up false = .ok () ∧ c02 g.ignoreOrder dbO dbN down false = .ok () := by
+  obtain ⟨up, h1, h2⟩ := C01.schema_on_reference_engine g hg hio rc old new dbO dbN ho hn hpo hpn heo hen hdef hnofk hncm
+    (fun a ha b hb e => by obtain ⟨x1, x2, x3, x4, _⟩ := hboth a ha b hb e; exact ⟨x1, x2, x3, x4⟩)
+  obtain ⟨down, h3, h4⟩ := schema_on_reference_engine g hg hio rc old new dbO dbN ho hn hpo hpn heo hen hdef hnofk hncm
+    (fun a ha b hb e => by obtain ⟨x1, x2, x3, _, x5⟩ := hboth a ha b hb e; exact ⟨x1, x2, x3, x5⟩)
+  exact ⟨up, down, h1, h3, h2, h4⟩
+
+-- non-vacuity of `schema_on_reference_engine`: the pair of `C01.exOldW` / `C01.exNewW` (a table created with a key and two
+-- indexes, a table dropped, a table kept, a table whose columns and indexes change), walked down from the new schema
+example : ∃ down dbO dbN, modelDown {} C01.exOldW C01.exNewW = .ok down ∧ execAll true [] C01.exOldW = some dbO ∧
+    execAll true [] C01.exNewW = some dbN ∧
+    down.length = 7 ∧ (execAll false dbN down).map (fun db' => db'.equiv dbO) = some true :=
+  ⟨_, _, _, by rfl, by rfl, by rfl, by decide, by decide⟩
+example : ∃ down dbO dbN, modelDown {} C01.exOldW C01.exNewW = .ok down ∧ execAll true [] C01.exOldW = some dbO ∧
+    execAll true [] C01.exNewW = some dbN ∧ (c02 false dbO dbN down false).toOption = some () :=
   ⟨_, _, _, by rfl, by rfl, by rfl, by decide⟩
 
 end Sqlize.C02
